@@ -16,7 +16,7 @@ MANIFEST = {
 	'text': 'expand_named_spec / prefix_copy_spec / expand_unnamed_spec (+ fuel bound from acyclicity) / expand_frame are Qed theorems '
 		'(Props/C05.v) over the functional model of AstPostProcessor + the ast.py copy functions (Cats/Expand.v, immutable values), with the '
 		'compared strings/operators regenerated from the source; model and implementation are compared after each of the three passes on both '
-		'shipped schema sets and on generated schemas (every member form, 1-4 templates x 0-3 sites, unnamed chains of depth 0-5).',
+		'shipped schema sets and on generated schemas (every member form, 1-4 templates x 0-3 sites, unnamed chains of depth 0-5). Inherited attributes and factory type are proved for every declaration order (Cats/ExpandInheritProofs.v).',
 	'design_ref': 'DESIGN.md section 4, C05',
 	'technique': 'Coq proof over regenerated model + vm_compute correspondence with the Python implementation + property oracle on snapshots',
 }
